@@ -20,6 +20,7 @@ structure St where
   ablk : List (String × List String) := []
   bcount : Nat := 0
   reported : Bool := false
+  incoherent : Bool := false
 
 def field (ws : List String) (name : String) : Option String :=
   (ws.find? (·.startsWith (name ++ "="))).map (fun w => (w.drop (name.length + 1)).toString)
@@ -32,6 +33,19 @@ def marksOf (ws : List String) : Option Marks := do
   pure ⟨a, m⟩
 
 def showMarks (m : Marks) : String := s!"ante={if m.ante then 1 else 0} msg={if m.msg then 1 else 0}"
+
+def parseItems (s : String) : Option (List (String × String)) :=
+  if s = "-" then some [] else
+  (s.splitOn ",").mapM fun e => match e.splitOn ":" with
+    | [k, d] => some (k, d)
+    | _ => none
+
+def renderItems (l : List (String × String)) : String :=
+  if l.isEmpty then "-" else ",".intercalate (l.map fun e => s!"{e.1}:{e.2}")
+
+/-- every cached application record equals the record of the working store -/
+def coherentB (cache store : List (String × String)) : Bool :=
+  cache.all fun e => (store.find? (·.1 = e.1)).map (·.2) = some e.2
 
 def sigOf (kind : String) : String :=
   if kind = "none" then "twin-nondeterminism" else kind ++ "-mutates-state"
@@ -47,7 +61,7 @@ def step (st : St) (pre post : List String) : St × Verdict :=
       else ({ st with plumbing := some p }, .diff s!"probe: model {showMarks want} impl {showMarks obs}")
     | none, _ => (st, .diff s!"probe: the real simulate path matches neither the as-is nor the fixed plumbing: {post}")
     | _, none => (st, .bad "probe marks")
-  | ["hist", _, kind, _, _] => ({ st with kind := kind, ablk := [], bcount := 0, reported := false }, .ok)
+  | ["hist", _, kind, _, _] => ({ st with kind := kind, ablk := [], bcount := 0, reported := false, incoherent := false }, .ok)
   | ["crash", _, role] =>
     if role = "B" then ({ st with reported := true }, .propfail (sigOf st.kind) s!"twin B crashed or hung: {" ".intercalate (post.take 30)}")
     else (st, .diff s!"twin A crashed: {" ".intercalate (post.take 30)}")
@@ -81,7 +95,14 @@ def step (st : St) (pre post : List String) : St × Verdict :=
         else .ok
       match modelV with
       | .ok =>
-        if changed then (st, .propfail (sigOf kind) detail) else (st, .ok)
+        if changed then (st, .propfail (sigOf kind) detail)
+        else
+          -- node-local side state: the REAL ApplicationCache must stay coherent with the working store
+          match field post "cache" >>= parseItems, field post "store" >>= parseItems with
+          | some c, some s =>
+            if coherentB c s || st.incoherent then (st, .ok)
+            else ({ st with incoherent := true }, .propfail (kind ++ "-poisons-appcache") s!"{" ".intercalate (pre.drop 2)}: cache {renderItems c} vs working store {renderItems s}")
+          | _, _ => (st, .bad "cache dump")
       | v => (st, v)
     | none, _, _ => (st, .bad "no mode line")
     | _, _, _ => (st, .bad "act fields")
